@@ -126,7 +126,7 @@ func TestC08Hist(t *testing.T) {
 func TestC08Pairs(t *testing.T) {
 	max := 24
 	if os.Getenv("VERIF_TIER") == "thorough" {
-		max = 64
+		max = 96
 	}
 	st := vlib.StatsFor("C08", "pairs", fmt.Sprintf("exhaustive honest steps a -> b for all 0 <= a <= b <= %d (first use at a, then probe to b), mem and sql; non-trivial = a > 0", max))
 	shard, nshards := shardOf()
